@@ -63,6 +63,7 @@ Conf == LET m == Sync(Sn) IN
              /\ {Key(Calls[k]) : k \in 1..Len(Calls)} \subseteq {Key(c) : c \in SeqToSet(Sync([Sn EXCEPT !.faults = <<>>]).calls)}
         ELSE Norm(m.calls) = Norm(Calls) /\ m.res = Rslt
 
+P_C02L == C02Local(Sn, Calls, Rslt)
 P_C03 == C03(Sn, Calls)
 P_C04 == C04(Sn, Calls)
 P_C05 == C05(Sn, Calls)
